@@ -1,4 +1,5 @@
 import Econf.Lemmas.ParserLemmas
+import Econf.Lemmas.DocLemmas
 
 /-!
   C13 — parse failures name the right error and line and return nothing partial.
@@ -153,5 +154,32 @@ theorem C13_error_range (cfg : Cfg) (ls : List Str) (e : Err) (n : Nat)
 example : (match parseBytes { delim := [0x3d], comment := [0x23] } [0x61, 0x3d, 0x31, 0x0a, 0x5b, 0x78, 0x5d, 0x20, 0x79, 0x0a, 0x62, 0x3d, 0x32, 0x0a] with
     | .error (e, n) => e == .textAfterSection && n == 2
     | .ok _ => false) = true := by decide
+
+/-! ### the malformed line behind any conventional document
+
+The premise "the lines before it parse" of `C13_first_error` is discharged by the C02 theorem for
+every document of the conventional grammar – comment blocks, sections, entries with continuation
+lines – so the reported line number is the number of physical lines of that document plus one,
+whatever precedes the malformed line, and whatever follows it. -/
+
+theorem C13_after_conventional (cfg : Cfg) (doc : List Item) (bad rest : Str) (e : Err)
+    (hw : CfgWF cfg.eff) (hdoc : ∀ it ∈ doc, it.WF cfg.eff) (hline : IsLine bad)
+    (hbad : ∀ st, parseLine cfg.eff st bad = .error e) :
+    parseBytes cfg (render doc ++ bad ++ rest) = .error (e, (renderLines doc).length + 1) := by
+  obtain ⟨t, rfl, ht⟩ := hline
+  have hs : splitLines (render doc ++ (t ++ [NL]) ++ rest) = renderLines doc ++ (t ++ [NL]) :: splitLines rest := by
+    rw [List.append_assoc, splitLines_render_append cfg.eff hw doc _ hdoc, List.append_assoc, List.singleton_append,
+      splitLines_line t rest (text_ne_NL ht)]
+  have hp := parse_doc cfg.eff hw doc {} hdoc
+  have := C13_first_error cfg.eff (doc.foldl expItem {}) (renderLines doc) (t ++ [NL]) (splitLines rest) e hp (hbad _)
+  unfold Cfg.eff at this
+  unfold parseBytes
+  simp only [hs, this]
+
+/-- a header without closing bracket behind the concrete document of `Props/C02.lean` (6 lines): line 7 -/
+example : parseBytes exCfg (render exDoc ++ [0x5b, 0x78, 0x0a] ++ [0x61, 0x3d, 0x31, 0x0a]) = .error (.missingBracket, 7) := by
+  apply C13_after_conventional exCfg exDoc _ _ _ exCfg_wf exDoc_wf ⟨[0x5b, 0x78], rfl, by decide⟩
+  intro st
+  exact C13_section_line _ st _ [0x78] _ (by decide) (by decide) ((C13_section_codes [0x78]).1 (by decide))
 
 end Econf
